@@ -1,11 +1,13 @@
 //! vh — verification harness for kaist-cp/circ (runtime monitoring).
 //! Prints one JSON record per line on stdout; the driver (`/verif/vcheck`) aggregates them.
 
+mod ebr;
 mod hist;
 mod json;
 mod mon;
 mod node;
 mod procs;
+mod ql;
 mod rcprog;
 mod rcrun;
 mod rng;
@@ -152,6 +154,72 @@ fn main() {
                 procs::c20(thorough, args.u64("shard", 0), args.u64("nshards", 1))
             };
             println!("{}", procs::summary(&cmd, o, t0.elapsed().as_secs_f64()).to_string());
+        }
+        "ebr" => {
+            let prop: &'static str = Box::leak(args.str("prop", "C13").into_boxed_str());
+            mon::install_panic_hook(prop);
+            install_hooks();
+            mon::TRACK_OBJS.store(false, std::sync::atomic::Ordering::SeqCst);
+            let mode = match args.str("mode", "S").as_str() {
+                "S" => sched::Mode::Serial,
+                "P" => sched::Mode::Parallel,
+                _ => sched::Mode::Off,
+            };
+            let cfg = ebr::EbrCfg {
+                profile: args.str("profile", "c13"),
+                mode,
+                seed: args.u64("seed", 1),
+                shard: args.u64("shard", 0),
+                execs: args.0.get("only").map(|o| o.parse::<u64>().unwrap() + 1).unwrap_or(args.u64("execs", 1_000_000_000)),
+                secs: args.f64("secs", 1e9),
+            };
+            let st = ebr::run_batch(&cfg);
+            println!("{}", ebr::summary(&cfg, &st, t0.elapsed().as_secs_f64()).to_string());
+        }
+        "c16enum" => {
+            mon::install_panic_hook("C16");
+            install_hooks();
+            mon::TRACK_OBJS.store(false, std::sync::atomic::Ordering::SeqCst);
+            let len = args.u64("len", 6) as usize;
+            let (programs, evals) = ebr::c16_enum(len);
+            let j = J::obj()
+                .set("type", "summary")
+                .set("profile", "c16-enum")
+                .set("mode", "sequential")
+                .set("execs", programs)
+                .set("inconclusive_cut", 0u64)
+                .set("distinct", programs)
+                .set("nontrivial_hashes", J::A((0..programs.min(5000)).map(|i| J::S(format!("p{}", i))).collect()))
+                .set("distinct_programs", programs)
+                .set("model_evaluations", evals)
+                .set("max_len", len)
+                .set("exhaustive", true)
+                .set("samples", J::A(vec![J::obj().set("program", "all sequences of {pin, drop, reactivate, reactivate_after} x 2 guard slots up to max_len, another participant advancing the epoch between steps")]))
+                .set("monitor_evals", mon::evals_json())
+                .set("wall_s", t0.elapsed().as_secs_f64());
+            println!("{}", j.to_string());
+        }
+        "ql" => {
+            let which = args.str("which", "c17");
+            let prop: &'static str = Box::leak(which.to_uppercase().into_boxed_str());
+            mon::install_panic_hook(prop);
+            install_hooks();
+            mon::TRACK_OBJS.store(false, std::sync::atomic::Ordering::SeqCst);
+            let mode = match args.str("mode", "S").as_str() {
+                "S" => sched::Mode::Serial,
+                "P" => sched::Mode::Parallel,
+                _ => sched::Mode::Off,
+            };
+            let cfg = ql::QlCfg {
+                which,
+                mode,
+                seed: args.u64("seed", 1),
+                shard: args.u64("shard", 0),
+                execs: args.0.get("only").map(|o| o.parse::<u64>().unwrap() + 1).unwrap_or(args.u64("execs", 1_000_000_000)),
+                secs: args.f64("secs", 1e9),
+            };
+            let st = ql::run_batch(&cfg);
+            println!("{}", ql::summary(&cfg, &st, t0.elapsed().as_secs_f64()).to_string());
         }
         "noop" => {}
         _ => {
